@@ -43,24 +43,27 @@ func (r rcReq) String() string {
 }
 
 type rcCfg struct {
-	Reqs            []rcReq
-	Faults          env.FaultSet
-	KeepSession     bool
-	MethodB         bool
-	Clean           bool
-	AlwaysResub     bool
-	RespTimeout     time.Duration
-	RespTimeoutLate bool // assign RetryClient.ResponseTimeout only after Connect has returned
-	ConnTimeout     time.Duration
-	PingInterval    time.Duration
-	WaitBase        time.Duration
-	WaitMax         time.Duration
-	PushAfterAck    []string       // messages "topic:payload:qos" the broker pushes after every accepting CONNACK
-	HandlerPhase    byte           // 0: no handler; 'B' before Connect; 'C' after Connect
-	AfterConnect    func(r *rcRun) // called by the main task right after Connect returned successfully
-	PingDelay       time.Duration  // the broker answers PINGREQ after this delay
-	KeepAliveOpt    uint16         // mqtt.WithKeepAlive(seconds) connect option (the reconnecting client derives its ping interval from it)
-	Manual          bool           // no ReconnectClient: the application drives a bare RetryClient itself (dial, SetClient, Connect, Resubscribe, Retry, wait for Done, redial)
+	Reqs             []rcReq
+	Faults           env.FaultSet
+	KeepSession      bool
+	MethodB          bool
+	Clean            bool
+	AlwaysResub      bool
+	RespTimeout      time.Duration
+	RespTimeoutLate  bool // assign RetryClient.ResponseTimeout only after Connect has returned
+	ConnTimeout      time.Duration
+	PingInterval     time.Duration
+	WaitBase         time.Duration
+	WaitMax          time.Duration
+	PushAfterAck     []string       // messages "topic:payload:qos" the broker pushes after every accepting CONNACK
+	HandlerPhase     byte           // 0: no handler; 'B' before Connect; 'C' after Connect
+	AfterConnect     func(r *rcRun) // called by the main task right after Connect returned successfully
+	PingDelay        time.Duration  // the broker answers PINGREQ after this delay
+	KeepAliveOpt     uint16         // mqtt.WithKeepAlive(seconds) connect option (the reconnecting client derives its ping interval from it)
+	CancelConnectCtx bool           // Connect gets a cancellable context which the application cancels as soon as Connect has returned (the usual `defer cancel()`)
+	GrantMax         *byte          // the broker grants at most this QoS in SUBACK (nil: what was requested)
+	HandleInState    bool           // the application (re-)registers its handler from inside the ConnState callback, on every StateActive
+	Manual           bool           // no ReconnectClient: the application drives a bare RetryClient itself (dial, SetClient, Connect, Resubscribe, Retry, wait for Done, redial)
 }
 
 type rcState struct {
@@ -159,6 +162,7 @@ func rcExecuteInto(cfg *rcCfg, out **rcRun) *rcRun {
 	r.broker.KeepSession = cfg.KeepSession
 	r.broker.MethodB = cfg.MethodB
 	r.broker.PingDelay = int64(cfg.PingDelay)
+	r.broker.GrantMax = cfg.GrantMax
 	n := len(cfg.Reqs)
 	r.submitted, r.accepted, r.subErr = make([]bool, n), make([]bool, n), make([]error, n)
 	if len(cfg.PushAfterAck) > 0 {
@@ -191,6 +195,15 @@ func rcExecuteInto(cfg *rcCfg, out **rcRun) *rcRun {
 			r.ev(fmt.Sprintf("state %d %v", id, s))
 			if vrt.Tracing() {
 				vrt.Tracef("   connstate c%d: %v (%v)", id, s, err)
+			}
+			if cfg.HandleInState && s == mqtt.StateActive && r.rc != nil {
+				name := fmt.Sprintf("hs%d", id)
+				r.rc.Handle(mqtt.HandlerFunc(func(m *mqtt.Message) {
+					r.handledBy = append(r.handledBy, rcHandled{Handler: name, Payload: string(m.Payload), At: len(r.net.Trace)})
+					r.ev("handled " + name + " " + string(m.Payload))
+				}))
+				r.registered = append(r.registered, rcRegistered{Handler: name, At: len(r.net.Trace)})
+				r.ev("registered " + name)
 			}
 		}}
 		r.bases = append(r.bases, b)
@@ -275,7 +288,12 @@ func rcExecuteInto(cfg *rcCfg, out **rcRun) *rcRun {
 	if cfg.Manual {
 		r.connErr = r.manualLoop(dialer, copts, base, max)
 	} else {
-		_, r.connErr = rc.Connect(vctx.Background(), "cid", copts...)
+		cctx, ccancel := vctx.Background(), func() {}
+		if cfg.CancelConnectCtx {
+			cctx, ccancel = vctx.WithCancel(cctx)
+		}
+		_, r.connErr = rc.Connect(cctx, "cid", copts...)
+		ccancel()
 	}
 	r.connectOK = r.connErr == nil
 	if cfg.HandlerPhase == 'C' {
